@@ -419,6 +419,15 @@ pub struct Occ {
     pub adjacent_only: bool,
 }
 
+impl Occ {
+    pub fn alias_is_ascii(&self) -> bool {
+        match &self.alias {
+            Alias::Short(c) => c.is_ascii(),
+            Alias::Long(l) => l.is_ascii(),
+        }
+    }
+}
+
 #[derive(Clone, Debug, PartialEq, Eq, Hash)]
 pub struct LevelSent {
     pub named: Vec<Occ>,
